@@ -23,3 +23,4 @@ func vBool(b bool) string {
 	}
 	return "false"
 }
+
